@@ -603,15 +603,25 @@ func doReplay(b *build, prop, path string) int {
 	}
 	dir := filepath.Join(b.scratch, "replay")
 	os.MkdirAll(dir, 0755)
-	r := b.execRun(dir, 0, rp.Scenario, execOpts{})
-	if r.infra != "" {
-		fatal2("replay: %s", r.infra)
+	tries := 1
+	if rp.Flaky {
+		tries = 2 * flakyTries
 	}
-	for _, v := range r.res.Violations {
-		if v.Sig == rp.Signature {
-			fmt.Printf("replay reproduces: %s %s\n%s\n", v.Oracle, v.Sig, v.Detail)
-			fmt.Printf("VIOLATION property=%s replay=%s\n", prop, path)
-			return 1
+	var r runOut
+	for k := 0; k < tries; k++ {
+		r = b.execRun(dir, 0, rp.Scenario, execOpts{})
+		if r.infra != "" {
+			fatal2("replay: %s", r.infra)
+		}
+		for _, v := range r.res.Violations {
+			if v.Sig == rp.Signature {
+				fmt.Printf("replay reproduces (execution %d of at most %d): %s %s\n%s\n", k+1, tries, v.Oracle, v.Sig, v.Detail)
+				fmt.Printf("VIOLATION property=%s replay=%s\n", prop, path)
+				return 1
+			}
+		}
+		if len(r.res.Violations) > 0 {
+			break
 		}
 	}
 	if len(r.res.Violations) > 0 {
